@@ -4,13 +4,13 @@ PKG, F = "./group/edwards25519", ["harness/C17/embed.go"]
 E = "(*go.dedis.ch/kyber/v4/group/edwards25519."
 H = []
 for dl in [0, 1, 2, 15, 28, 29, 30, 31, 32, 127, 128, 255]:
-    H.append(dict(name="ed25519.Data-lenbyte%d" % dl, pkg=PKG, files=F, entry="HarnessData", mode="bv", no_replay=True, params={"p0": dl},
+    H.append(dict(name="ed25519.Data-lenbyte%d" % dl, pkg=PKG, files=F, entry="HarnessData", mode="bv", replay_entry="HarnessDataReplay", replay_models=16, params={"p0": dl},
           renames={E + "extendedGroupElement).ToBytes": "c17ToBytes"},
           stubs=["extendedGroupElement.ToBytes -> length byte as given, 31 arbitrary bytes (the encoder is verified in C01/C03)"],
           functions=["edwards25519.(*point).Data", "edwards25519.(*point).EmbedLen"], bound="length byte %d, all other bytes arbitrary" % dl,
           tiers=(["quick", "thorough"] if dl in (0, 1, 29, 30, 255) else ["thorough"])))
 for n in [-1, 0, 1, 2, 15, 28, 29, 30, 31, 32, 37]:
-    H.append(dict(name="ed25519.Embed-len%s" % ("nil" if n < 0 else n), pkg=PKG, files=F, entry="HarnessEmbed", mode="bv", params={"p0": n}, no_replay=True, unwind=80,
+    H.append(dict(name="ed25519.Embed-len%s" % ("nil" if n < 0 else n), pkg=PKG, files=F, entry="HarnessEmbed", mode="bv", params={"p0": n}, replay_entry="HarnessEmbedReplay", unwind=80,
                   loop_assume={"Embed": 2},
                   renames={E + "extendedGroupElement).FromBytes": "c17FromBytes", E + "point).Mul": "c17MulStub", E + "point).Equal": "c17EqualStub"},
                   stubs=["FromBytes -> arbitrary verdict (records the candidate); point.Mul -> records the scalar; point.Equal -> arbitrary verdict"],
